@@ -561,16 +561,20 @@ Proof.
   unfold more_specific. rewrite !precedes_irrefl, Nat.ltb_irrefl, !andb_false_r. reflexivity.
 Qed.
 
+Definition tried_rel (rq : request) (a b : reg) : Prop :=
+  more_specific rq b a = false /\ (r_slot a = r_slot b -> (r_order a <= r_order b)%Z).
+
 Lemma tried_sorted regs R cls rq :
   inv regs R -> NoDup (q_req_sro rq) -> NoDup (q_ctx_sro rq) -> order_respects regs ->
-  StronglySorted (fun a b => more_specific rq b a = false) (tried R cls rq).
+  StronglySorted (tried_rel rq) (tried R cls rq).
 Proof.
-  intros Hinv Hr Hc Hord. rewrite tried_blocks. apply SSorted_flat_map.
+  intros Hinv Hr Hc Hord. unfold tried_rel. rewrite tried_blocks. apply SSorted_flat_map.
   - intros [r c] _. simpl.
     destruct (block_spec R _ _ rq (Hinv (mkSlot cls r c (q_view_name rq)))) as [Hp Hs].
     eapply SSorted_weaken_in; [exact Hs|]. intros a b Ha Hb Hab.
     apply (Permutation_in _ Hp), slot_regs_in in Ha. apply (Permutation_in _ Hp), slot_regs_in in Hb.
-    destruct Ha as [Ha1 Ha2], Hb as [Hb1 Hb2]. unfold more_specific. rewrite Ha2, Hb2.
+    destruct Ha as [Ha1 Ha2], Hb as [Hb1 Hb2]. split; [|intros _; exact Hab].
+    unfold more_specific. rewrite Ha2, Hb2.
     rewrite !precedes_irrefl, andb_false_r. simpl. rewrite slot_eqb_refl. simpl.
     apply Nat.ltb_ge. destruct (Nat.le_gt_cases (n_preds b) (n_preds a)) as [|Hlt]; [assumption|].
     exfalso. unfold by_order in Hab.
@@ -580,7 +584,11 @@ Proof.
     destruct (block_spec R _ _ rq (Hinv (mkSlot cls r1 c1 (q_view_name rq)))) as [Hp1 _].
     destruct (block_spec R _ _ rq (Hinv (mkSlot cls r2 c2 (q_view_name rq)))) as [Hp2 _].
     apply (Permutation_in _ Hp1), slot_regs_in in Ha. apply (Permutation_in _ Hp2), slot_regs_in in Hb.
-    destruct Ha as [_ Ha], Hb as [_ Hb]. unfold more_specific. rewrite Ha, Hb. simpl.
+    destruct Ha as [_ Ha], Hb as [_ Hb].
+    assert (Hslot : r_slot a <> r_slot b).
+    { rewrite Ha, Hb. intros E. inversion E as [[E1 E2]]. destruct H as [[_ N1]|[_ [_ N1]]]; congruence. }
+    split; [|intros E; contradiction].
+    unfold more_specific. rewrite Ha, Hb. simpl.
     destruct H as [[H1 H2]|[-> [H1 H2]]].
     + rewrite H1. simpl. assert (E : N.eqb r2 r1 = false) by (apply N.eqb_neq; congruence).
       rewrite E. simpl. unfold slot_eqb. simpl. rewrite E, !andb_false_r. reflexivity.
@@ -636,39 +644,122 @@ Proof.
   - rewrite IH; auto.
 Qed.
 
+(* the winner, characterised directly: a qualifying candidate; no qualifying candidate is more
+   specific; within its own slot none has a smaller order *)
+Lemma lookup_winner_char ao regs cls rq :
+  NoDup (map key regs) -> no_accept regs ->
+  NoDup (q_req_sro rq) -> NoDup (q_ctx_sro rq) -> order_respects regs ->
+  match call_view (register_all ao regs) cls rq with
+  | Ran t => exists x, In x regs /\ r_tag x = t /\ candidate cls rq x = true
+                       /\ forall w, In w regs -> candidate cls rq w = true ->
+                                     more_specific rq w x = false
+                                     /\ (r_slot x = r_slot w -> (r_order x <= r_order w)%Z)
+  | _ => forall w, In w regs -> candidate cls rq w = false
+  end.
+Proof.
+  intros Hnd Hna Hr Hc Hord.
+  pose proof (register_all_inv ao regs Hnd Hna) as Hinv.
+  pose proof (tried_sorted regs _ cls rq Hinv Hr Hc Hord) as Hsorted.
+  pose proof (call_view_find (register_all ao regs) cls rq) as Hf.
+  destruct (find (qualifies rq) (tried (register_all ao regs) cls rq)) as [x|] eqn:Ef.
+  - rewrite Hf. apply find_split in Ef. destruct Ef as (l1 & l2 & El & Hq & Hl1).
+    assert (Hx : In x (tried (register_all ao regs) cls rq)) by (rewrite El; apply in_or_app; simpl; auto).
+    destruct (tried_in _ _ _ _ _ Hinv Hx) as (Hx1 & Hx2 & Hx3 & Hx4 & Hx5).
+    exists x. split; [assumption|]. split; [reflexivity|]. split; [apply candidate_iff; tauto|].
+    intros w Hw1 Hw2. apply candidate_iff in Hw2. destruct Hw2 as (W1 & W2 & W3 & W4 & W5).
+    pose proof (in_tried _ _ _ _ _ Hinv Hw1 W1 W2 W3 W4) as Hwt. rewrite El in Hwt.
+    apply in_app_or in Hwt. destruct Hwt as [Hwt|[<-|Hwt]].
+    + rewrite (Hl1 w Hwt) in W5. discriminate.
+    + split; [apply more_specific_irrefl|intros _; apply Z.le_refl].
+    + rewrite El in Hsorted. exact (SSorted_split _ _ _ _ Hsorted w Hwt).
+  - assert (G : forall w, In w regs -> candidate cls rq w = false).
+    { intros w Hw1. destruct (candidate cls rq w) eqn:Hw2; [exfalso|reflexivity].
+      apply candidate_iff in Hw2. destruct Hw2 as (W1 & W2 & W3 & W4 & W5).
+      pose proof (in_tried _ _ _ _ _ Hinv Hw1 W1 W2 W3 W4) as Hwt.
+      rewrite (proj1 (find_none_iff _ _) Ef w Hwt) in W5. discriminate. }
+    destruct Hf as [-> | ->]; exact G.
+Qed.
+
 Theorem lookup_winner ao regs cls rq :
   Forall reg_wf regs -> NoDup (map key regs) -> no_accept regs ->
   NoDup (q_req_sro rq) -> NoDup (q_ctx_sro rq) -> order_respects regs ->
   spec_ok cls regs rq (call_view (register_all ao regs) cls rq) = true.
 Proof.
   intros Hwf Hnd Hna Hr Hc Hord.
-  pose proof (register_all_inv ao regs Hnd Hna) as Hinv.
-  pose proof (tried_sorted regs _ cls rq Hinv Hr Hc Hord) as Hsorted.
-  pose proof (call_view_find (register_all ao regs) cls rq) as Hf.
+  pose proof (lookup_winner_char ao regs cls rq Hnd Hna Hr Hc Hord) as H.
   unfold spec_ok, ok_by, winners_by. rewrite (effective_nodup regs Hwf Hnd).
-  destruct (find (qualifies rq) (tried (register_all ao regs) cls rq)) as [x|] eqn:Ef.
-  - rewrite Hf. apply find_split in Ef. destruct Ef as (l1 & l2 & El & Hq & Hl1).
-    assert (Hx : In x (tried (register_all ao regs) cls rq)) by (rewrite El; apply in_or_app; simpl; auto).
-    destruct (tried_in _ _ _ _ _ Hinv Hx) as (Hx1 & Hx2 & Hx3 & Hx4 & Hx5).
-    apply existsb_exists. exists x. split; [|apply N.eqb_refl].
-    apply filter_In. split.
-    + apply filter_In. split; [assumption|]. apply candidate_iff. tauto.
-    + apply negb_true_iff. apply not_true_iff_false. intros He. apply existsb_exists in He.
-      destruct He as (w & Hw & Hms). apply filter_In in Hw. destruct Hw as [Hw1 Hw2].
-      apply candidate_iff in Hw2. destruct Hw2 as (W1 & W2 & W3 & W4 & W5).
-      pose proof (in_tried _ _ _ _ _ Hinv Hw1 W1 W2 W3 W4) as Hwt. rewrite El in Hwt.
-      apply in_app_or in Hwt. destruct Hwt as [Hwt|[<-|Hwt]].
-      * rewrite (Hl1 w Hwt) in W5. discriminate.
-      * rewrite more_specific_irrefl in Hms. discriminate.
-      * rewrite El in Hsorted. rewrite (SSorted_split _ _ _ _ Hsorted w Hwt) in Hms. discriminate.
-  - assert (Hc0 : filter (candidate cls rq) regs = []).
-    { destruct (filter (candidate cls rq) regs) as [|w t] eqn:Ec; [reflexivity|exfalso].
-      assert (Hw : In w (filter (candidate cls rq) regs)) by (rewrite Ec; simpl; auto).
-      apply filter_In in Hw. destruct Hw as [Hw1 Hw2]. apply candidate_iff in Hw2.
-      destruct Hw2 as (W1 & W2 & W3 & W4 & W5).
-      pose proof (in_tried _ _ _ _ _ Hinv Hw1 W1 W2 W3 W4) as Hwt.
-      rewrite (proj1 (find_none_iff _ _) Ef w Hwt) in W5. discriminate. }
-    rewrite Hc0. destruct Hf as [-> | ->]; reflexivity.
+  assert (Hnone : (forall w, In w regs -> candidate cls rq w = false) -> filter (candidate cls rq) regs = []).
+  { intros G. destruct (filter (candidate cls rq) regs) as [|w t] eqn:Ec; [reflexivity|exfalso].
+    assert (Hw : In w (filter (candidate cls rq) regs)) by (rewrite Ec; simpl; auto).
+    apply filter_In in Hw. destruct Hw as [Hw1 Hw2]. rewrite (G w Hw1) in Hw2. discriminate. }
+  destruct (call_view (register_all ao regs) cls rq) as [t| |].
+  - destruct H as (x & Hx1 & Hx2 & Hx3 & Hmin).
+    apply existsb_exists. exists x. split; [|apply N.eqb_eq; assumption].
+    apply filter_In. split; [apply filter_In; auto|].
+    apply negb_true_iff. apply not_true_iff_false. intros He. apply existsb_exists in He.
+    destruct He as (w & Hw & Hms). apply filter_In in Hw. destruct Hw as [Hw1 Hw2].
+    rewrite (proj1 (Hmin w Hw1 Hw2)) in Hms. discriminate.
+  - rewrite (Hnone H). reflexivity.
+  - rewrite (Hnone H). reflexivity.
+Qed.
+
+(* permuting the registration list: Not Found stays Not Found, and a different winner can only be
+   another registration of the same slot with the same order *)
+Lemma precedes_total l a b : In a l -> In b l -> a <> b -> precedes l a b = true \/ precedes l b a = true.
+Proof.
+  induction l as [|x l IH]; intros Ha Hb Hne; [destruct Ha|]. simpl.
+  destruct (N.eqb_spec x a) as [->|Hxa].
+  - left. destruct (N.eqb_spec a b) as [|_]; [contradiction|]. simpl.
+    destruct Hb as [Hb|Hb]; [contradiction|]. apply memN_In. assumption.
+  - destruct (N.eqb_spec x b) as [->|Hxb].
+    + right. destruct Ha as [Ha|Ha]; [congruence|]. simpl. apply memN_In. assumption.
+    + destruct Ha as [Ha|Ha]; [contradiction|]. destruct Hb as [Hb|Hb]; [contradiction|]. auto.
+Qed.
+
+Theorem lookup_order_insensitive ao regs regs' cls rq :
+  Permutation regs regs' ->
+  NoDup (map key regs) -> no_accept regs ->
+  NoDup (q_req_sro rq) -> NoDup (q_ctx_sro rq) -> order_respects regs ->
+  match call_view (register_all ao regs) cls rq, call_view (register_all ao regs') cls rq with
+  | Ran t, Ran t' => exists x x', In x regs /\ In x' regs /\ r_tag x = t /\ r_tag x' = t'
+                                  /\ r_slot x = r_slot x' /\ r_order x = r_order x'
+  | Ran _, _ | _, Ran _ => False
+  | _, _ => True
+  end.
+Proof.
+  intros Hp Hnd Hna Hr Hc Hord.
+  assert (Hnd' : NoDup (map key regs')) by (eapply Permutation_NoDup; [apply Permutation_map; exact Hp|assumption]).
+  assert (Hna' : no_accept regs') by (intros v Hv; apply Hna; eapply Permutation_in; [apply Permutation_sym; exact Hp|assumption]).
+  assert (Hord' : order_respects regs').
+  { intros a b Ha Hb. apply Hord; eapply Permutation_in; try (apply Permutation_sym; exact Hp); assumption. }
+  pose proof (lookup_winner_char ao regs cls rq Hnd Hna Hr Hc Hord) as H1.
+  pose proof (lookup_winner_char ao regs' cls rq Hnd' Hna' Hr Hc Hord') as H2.
+  destruct (call_view (register_all ao regs) cls rq) as [t| |];
+    destruct (call_view (register_all ao regs') cls rq) as [t'| |]; try exact I.
+  - destruct H1 as (x & Hx1 & Hx2 & Hx3 & Hmin). destruct H2 as (x' & Hx1' & Hx2' & Hx3' & Hmin').
+    assert (Hx'r : In x' regs) by (eapply Permutation_in; [apply Permutation_sym; exact Hp|assumption]).
+    assert (Hxr' : In x regs') by (eapply Permutation_in; [exact Hp|assumption]).
+    destruct (Hmin x' Hx'r Hx3') as [M1 O1]. destruct (Hmin' x Hxr' Hx3) as [M2 O2].
+    assert (Hs : r_slot x = r_slot x').
+    { apply candidate_iff in Hx3, Hx3'. destruct Hx3 as (A1 & A2 & A3 & A4 & _), Hx3' as (B1 & B2 & B3 & B4 & _).
+      unfold more_specific in M1, M2. apply orb_false_iff in M1, M2.
+      destruct M1 as [M1 _], M2 as [M2 _]. apply orb_false_iff in M1, M2.
+      destruct M1 as [M1a M1b], M2 as [M2a M2b].
+      assert (Er : s_req (r_slot x) = s_req (r_slot x')).
+      { destruct (N.eq_dec (s_req (r_slot x)) (s_req (r_slot x'))) as [|Hne]; [assumption|exfalso].
+        destruct (precedes_total _ _ _ A3 B3 Hne); congruence. }
+      assert (Ec : s_ctx (r_slot x) = s_ctx (r_slot x')).
+      { destruct (N.eq_dec (s_ctx (r_slot x)) (s_ctx (r_slot x'))) as [|Hne]; [assumption|exfalso].
+        rewrite Er, N.eqb_refl in M2b. rewrite <- Er, N.eqb_refl in M1b. simpl in M1b, M2b.
+        destruct (precedes_total _ _ _ A4 B4 Hne); congruence. }
+      destruct (r_slot x), (r_slot x'); simpl in *; congruence. }
+    exists x, x'. repeat split; auto. specialize (O1 Hs). specialize (O2 (eq_sym Hs)). lia.
+  - destruct H1 as (x & Hx1 & _ & Hx3 & _). rewrite (H2 x) in Hx3; [discriminate|]. eapply Permutation_in; eassumption.
+  - destruct H1 as (x & Hx1 & _ & Hx3 & _). rewrite (H2 x) in Hx3; [discriminate|]. eapply Permutation_in; eassumption.
+  - destruct H2 as (x & Hx1 & _ & Hx3 & _). rewrite (H1 x) in Hx3; [discriminate|].
+    eapply Permutation_in; [apply Permutation_sym; exact Hp|assumption].
+  - destruct H2 as (x & Hx1 & _ & Hx3 & _). rewrite (H1 x) in Hx3; [discriminate|].
+    eapply Permutation_in; [apply Permutation_sym; exact Hp|assumption].
 Qed.
 
 (* ================================================================== *)
@@ -1011,3 +1102,149 @@ Proof.
   destruct not_mark; reflexivity.
 Qed.
 
+
+(* accept / path_info: one oracle look-up each *)
+Theorem pred_accept rq values :
+  eval_pred rq (PAccept values) = true <-> exists o, In o values /\ (0 < offer_q rq o)%N.
+Proof.
+  simpl. rewrite existsb_exists. split; intros (o & H1 & H2); exists o; split; auto; apply N.ltb_lt; assumption.
+Qed.
+
+Theorem pred_path_info rq pat :
+  eval_pred rq (PPathInfo pat) = regex_match (q_regex rq) pat (q_upath rq).
+Proof. reflexivity. Qed.
+
+(* ================================================================== *)
+(* MultiView.add keeps every list sorted by order, for any sequence of adds in which the order
+   is a function of the phash (as it is when both come from PredicateList.make) *)
+
+Lemma NoDup_app_snoc {A} (l : list A) x : NoDup l -> ~ In x l -> NoDup (l ++ [x]).
+Proof.
+  induction 1 as [|y l Hy Hl IH]; intros Hx; simpl; [constructor; [intros []|constructor]|].
+  constructor.
+  - intros Hin. apply in_app_or in Hin. destruct Hin as [Hin|[->|[]]]; [contradiction|]. apply Hx. simpl; auto.
+  - apply IH. intros Hin. apply Hx. simpl; auto.
+Qed.
+
+Section MultiviewSorted.
+  Variable f : text -> Z.
+
+  Definition entries_f (l : list entry) : Prop := forall e, In e l -> e_order e = f (e_phash e).
+  Definition list_ok (l : list entry) : Prop := entries_sorted l /\ entries_f l /\ NoDup (map e_phash l).
+  Definition mv_sorted (m : mview) : Prop :=
+    list_ok (mv_views m) /\ forall k s, In (k, s) (mv_media m) -> list_ok s.
+
+  Lemma replace_phash_some ph new l l' :
+    replace_phash ph new l = Some l' ->
+    (exists e0, In e0 l /\ e_phash e0 = ph) /\ (forall x, In x l' -> x = new \/ In x l)
+    /\ (e_phash new = ph -> map e_phash l' = map e_phash l).
+  Proof.
+    revert l'. induction l as [|e l IH]; intros l' H; simpl in H; [discriminate|].
+    destruct (text_eqb_spec ph (e_phash e)) as [E|E].
+    - inversion H; subst. split; [exists e; simpl; auto|]. split.
+      + intros x [<-|Hx]; simpl; auto.
+      + intros Hn. simpl. congruence.
+    - destruct (replace_phash ph new l) as [r'|]; [|discriminate]. inversion H; subst.
+      destruct (IH r' eq_refl) as ((e0 & H0 & H1) & H2 & H3). split; [exists e0; simpl; auto|]. split.
+      + intros x [<-|Hx]; simpl; auto. destruct (H2 x Hx); auto.
+      + intros Hn. simpl. rewrite H3 by assumption. reflexivity.
+  Qed.
+
+  Lemma replace_phash_ok ph new l l' :
+    e_phash new = ph -> e_order new = f ph -> list_ok l ->
+    replace_phash ph new l = Some l' -> list_ok l'.
+  Proof.
+    intros Hp Ho (Hs & Hf & Hn) H.
+    destruct (replace_phash_some _ _ _ _ H) as (_ & Hin & Hmap).
+    split; [|split].
+    - clear Hn Hmap Hin. revert l' H. induction Hs as [|e l Hl IH He]; intros l' H; simpl in H; [discriminate|].
+      assert (Hf' : entries_f l) by (intros x Hx; apply Hf; simpl; auto).
+      destruct (text_eqb_spec ph (e_phash e)) as [E|E].
+      + inversion H; subst l'. constructor; [assumption|].
+        rewrite Forall_forall in *. intros x Hx. specialize (He x Hx). unfold entry_leb in *.
+        rewrite Ho, E, <- (Hf e) by (simpl; auto). assumption.
+      + destruct (replace_phash ph new l) as [r'|] eqn:Er; [|discriminate]. inversion H; subst l'.
+        constructor; [apply IH; auto|].
+        destruct (replace_phash_some _ _ _ _ Er) as ((e0 & H0 & H1) & H2 & _).
+        rewrite Forall_forall in *. intros x Hx. destruct (H2 x Hx) as [->|Hx']; [|auto].
+        specialize (He e0 H0). unfold entry_leb in *. rewrite Ho, <- H1, <- (Hf' e0 H0). assumption.
+    - intros x Hx. destruct (Hin x Hx) as [->|Hx']; [congruence|auto].
+    - rewrite Hmap by assumption. assumption.
+  Qed.
+
+  Lemma append_ok new l :
+    e_order new = f (e_phash new) -> list_ok l -> (forall e, In e l -> e_phash e <> e_phash new) ->
+    list_ok (isort entry_leb (l ++ [new])).
+  Proof.
+    intros Ho (Hs & Hf & Hn) Hne. split; [|split].
+    - apply isort_sorted; [apply entry_leb_total|apply entry_leb_trans].
+    - intros e He. apply (Permutation_in _ (isort_perm entry_leb _)) in He.
+      apply in_app_or in He. destruct He as [He|[<-|[]]]; auto.
+    - eapply Permutation_NoDup; [apply Permutation_map, Permutation_sym, isort_perm|].
+      rewrite map_app. simpl. apply NoDup_app_snoc; [assumption|].
+      intros Hin. apply in_map_iff in Hin. destruct Hin as (e & E & He). exact (Hne e He E).
+  Qed.
+
+  Lemma replace_phash_none_inv ph new l :
+    replace_phash ph new l = None -> forall e, In e l -> e_phash e <> ph.
+  Proof.
+    induction l as [|e l IH]; simpl; intros H x Hx; [destruct Hx|].
+    destruct (text_eqb_spec ph (e_phash e)) as [E|E]; [discriminate|].
+    destruct (replace_phash ph new l); [discriminate|].
+    destruct Hx as [<-|Hx]; [congruence|apply IH; auto].
+  Qed.
+
+  Lemma media_set_in k v m k' s' :
+    In (k', s') (media_set k v m) -> (k', s') = (k, v) \/ In (k', s') m.
+  Proof.
+    induction m as [|[k0 v0] m IH]; simpl; [intros [H|[]]; auto|].
+    destruct (text_eqb k k0); simpl; intros [H|H]; auto. destruct (IH H); auto.
+  Qed.
+
+  Lemma assoc_in {B} k (m : list (text * B)) s : assoc k m = Some s -> exists k', In (k', s) m.
+  Proof.
+    induction m as [|[k0 v0] m IH]; simpl; [discriminate|].
+    destruct (text_eqb k k0); [intros H; inversion H; subst; eauto|].
+    intros H. destruct (IH H) as (k' & Hk). eauto.
+  Qed.
+
+  Theorem mv_add_sorted m v order phash accept ao :
+    order = f phash -> mv_sorted m -> mv_sorted (mv_add m v order phash accept ao).
+  Proof.
+    intros Ho (Hv & Hm). unfold mv_add.
+    destruct (replace_phash phash (order, v, phash) (mv_views m)) as [views'|] eqn:E1.
+    - split; [|exact Hm]. simpl. exact (replace_phash_ok phash (order, v, phash) _ _ eq_refl Ho Hv E1).
+    - pose proof (replace_phash_none_inv _ _ _ E1) as Hne. destruct accept as [a|].
+      + set (subset := match assoc (o_full a) (mv_media m) with Some s => s | None => [] end).
+        assert (Hsub : list_ok subset).
+        { unfold subset. destruct (assoc (o_full a) (mv_media m)) as [s|] eqn:Ea.
+          - destruct (assoc_in _ _ _ Ea) as (k' & Hk). exact (Hm _ _ Hk).
+          - repeat split; try constructor. intros e []. }
+        destruct (replace_phash phash (order, v, phash) subset) as [subset'|] eqn:E2.
+        * split; [exact Hv|]. simpl. intros k s Hks. apply media_set_in in Hks.
+          destruct Hks as [Hks|Hks]; [|eauto]. injection Hks as Ek Es. rewrite Es.
+          exact (replace_phash_ok phash (order, v, phash) _ _ eq_refl Ho Hsub E2).
+        * split; [exact Hv|]. simpl. intros k s Hks. apply media_set_in in Hks.
+          destruct Hks as [Hks|Hks]; [|eauto]. injection Hks as Ek Es. rewrite Es.
+          apply append_ok; [exact Ho|assumption|]. exact (replace_phash_none_inv _ _ _ E2).
+      + split; [|exact Hm]. simpl. apply append_ok; [exact Ho|assumption|exact Hne].
+  Qed.
+
+  (* any sequence of adds, starting from the empty MultiView *)
+  Definition add_args := (reg * Z * text * option offer * option (list text))%type.
+  Definition mv_add_args (m : mview) (a : add_args) : mview :=
+    let '(v, order, phash, accept, ao) := a in mv_add m v order phash accept ao.
+
+  Theorem multiview_sorted (adds : list add_args) :
+    Forall (fun a => let '(_, order, phash, _, _) := a in order = f phash) adds ->
+    mv_sorted (fold_left mv_add_args adds mv_empty).
+  Proof.
+    assert (G : forall m, mv_sorted m ->
+                Forall (fun a : add_args => let '(_, order, phash, _, _) := a in order = f phash) adds ->
+                mv_sorted (fold_left mv_add_args adds m)).
+    { induction adds as [|a adds IH]; intros m Hm Hf; simpl; [assumption|].
+      inversion Hf as [|? ? Ha Hf']; subst. apply IH; [|assumption].
+      destruct a as [[[[v order] phash] accept] ao]. simpl. apply mv_add_sorted; assumption. }
+    apply G. split; [|intros k s []]. repeat split; try constructor. intros e [].
+  Qed.
+End MultiviewSorted.
